@@ -471,6 +471,19 @@ func (m *Matcher) match(pattern interface{}, fact interface{}, bindings Bindings
 			}
 			binding, found := bs[vv]
 			if found {
+				if s, is := binding.(string); is && m.IsVariable(s) {
+					// The value bound to the variable looks
+					// like a variable itself (a message
+					// can say "?x").  It is data, not a
+					// pattern: using it as a pattern would
+					// bind more variables from the message
+					// and, for a variable bound to its own
+					// name, never return.
+					if fs, is := fact.(string); is && fs == s {
+						return []Bindings{bs}, nil
+					}
+					return nil, nil
+				}
 				return m.match(binding, fact, bindings)
 			} else {
 				// add new binding
